@@ -918,7 +918,10 @@ def pipeline_part(ctx, exe, mexe, d):
 
 
 def run(ctx):
-    ctx.gate = core.proof_gate("C13")
+    # theories/C13/Pipeline*.v are stated over C14's codec theorems and the schemas GENERATED from the Rust
+    # definitions: regenerate them here too, so that this gate never builds against a stale Schema_gen.v
+    from checks import C14 as _c14
+    ctx.gate = core.proof_gate("C13", pregen=_c14.pregen)
     for _ in ctx.gate["theorems"]:
         ctx.oblige(True)
     exe = core.build_harness("c13")
